@@ -286,6 +286,56 @@ def check(tier):
                      'the page calls is_valid() of every module for every submitted text without a handler; %s' % f.detail)
         if not fresh:
             rep.ok('C18.availability', FILE + ' application', 'no foreign exception can escape any is_valid() (C01 obligations, known findings of C01 excluded)')
+    # the formatted number of every accepting module goes through html.escape(): format() has to return a string for accepted numbers
+    if 'format' in src(M.funcs['info']):
+        from ..strabs.run import analyse_functions, get_interp
+        from .. import scope as _scope
+        fres = analyse_functions()
+        prog_ = get_interp().prog
+        nfmt = 0
+        for mn_ in sorted(fres):
+            rec_ = (fres[mn_].get('functions') or {}).get('format')
+            if not rec_ or mn_ in _scope.C04_UNDECIDED:
+                continue
+            nfmt += 1
+            kinds_ = set(rec_.get('kinds') or [])
+            if kinds_ and not kinds_ <= {'str'}:
+                rep.fail('C18.availability', rec_['where'][0], 'format', 'result kinds %s' % sorted(kinds_), rec_['where'][1],
+                         '%s.format() can return %s for a number its is_valid() accepts; the page passes it to html.escape(), which raises: server error in HTML mode'
+                         % (mn_.replace('stdnum.', ''), ', '.join(sorted(kinds_ - {'str'}))))
+        rep.unit('format() functions whose result kind is decided', nfmt)
+    # ---- the listing is complete only if get_number_modules() yields every walked module that has validate() under its own name
+    upath = os.path.join(REPO, 'stdnum', 'util.py')
+    with open(upath, encoding='utf-8') as fh:
+        utree = ast.parse(fh.read())
+    gnm = next((n for n in utree.body if isinstance(n, ast.FunctionDef) and n.name == 'get_number_modules'), None)
+    if gnm is None:
+        raise AnalysisError('stdnum/util.py: get_number_modules() vanished')
+    yields = [n for n in ast.walk(gnm) if isinstance(n, ast.Yield)]
+    par_ = {}
+    for n in ast.walk(gnm):
+        for c in ast.iter_child_nodes(n):
+            par_[c] = n
+    for y in yields:
+        conds = []
+        n = y
+        while n in par_:
+            p_ = par_[n]
+            if isinstance(p_, ast.If) and any(x is y for b in p_.body for x in ast.walk(b)):
+                conds.extend(p_.test.values if isinstance(p_.test, ast.BoolOp) and isinstance(p_.test.op, ast.And) else [p_.test])
+            elif isinstance(p_, ast.If):
+                conds.append(ast.UnaryOp(op=ast.Not(), operand=p_.test))
+            n = p_
+        extra = [c for c in conds if not (
+            (isinstance(c, ast.Call) and src(c.func) == 'hasattr' and len(c.args) == 2 and src(c.args[1]) == "'validate'") or
+            (isinstance(c, ast.Compare) and len(c.ops) == 1 and isinstance(c.ops[0], ast.Eq) and '__name__' in src(c)) or
+            # the hasattr test written as getattr(module, 'validate', None) is not None (directly or through a local)
+            (isinstance(c, ast.Compare) and len(c.ops) == 1 and isinstance(c.ops[0], ast.IsNot) and src(c.comparators[0]) == 'None' and (
+                "getattr" in src(c.left) and "'validate'" in src(c.left) or
+                any(isinstance(a_, ast.Assign) and src(a_.targets[0]) == src(c.left) and 'getattr' in src(a_.value) and "'validate'" in src(a_.value) for a_ in ast.walk(gnm)))))]
+        rep.check(not extra, 'C18.listing', 'stdnum/util.py', 'get_number_modules', src(extra[0]) if extra else 'yield under hasattr(validate) and __name__ == name',
+                  y.lineno, 'get_number_modules() skips modules by a further condition (%s): a format whose is_valid() accepts the number can be missing from the answer'
+                  % (src(extra[0]) if extra else ''), what='modules are filtered only by hasattr(module, validate) and the alias test')
     rep.not_decided = ['that formatfn/compactfn never raise on numbers accepted by is_valid() (C04, C01)',
                        'JSON serialisability of every conversion result']
     return rep.finish()
